@@ -47,18 +47,17 @@ if not os.path.isdir(backend.path):
         logging.warning("%r does not exist.", backend.path)
 
 current_user_principal = os.environ.get("CURRENT_USER_PRINCIPAL", "/user/")
-if not backend.get_resource(current_user_principal):
-    if autocreate:
-        backend.create_principal(
-            current_user_principal, create_defaults=create_defaults
-        )
-    else:
-        logging.warning(
-            "default user principal '%s' does not exist. "
-            "Create directory %s or set AUTOCREATE variable?",
-            current_user_principal,
-            backend._map_to_file_path(current_user_principal),
-        )
+if autocreate:
+    # Creation is idempotent; this also adds the default collections to a
+    # principal that was created without them (like xandikos.web.main).
+    backend.create_principal(current_user_principal, create_defaults=create_defaults)
+elif not backend.get_resource(current_user_principal):
+    logging.warning(
+        "default user principal '%s' does not exist. "
+        "Create directory %s or set AUTOCREATE variable?",
+        current_user_principal,
+        backend._map_to_file_path(current_user_principal),
+    )
 
 backend._mark_as_principal(current_user_principal)
 app = XandikosApp(backend, current_user_principal)
